@@ -229,7 +229,18 @@ class SigImpl:
             elif k == "set":
                 setattr(inst, f"o{w[1]}", int(w[2]))
             elif k == "lassign":
-                setattr(inst, f"o{w[1]}", parse_ints(w[2]))
+                vals = parse_ints(w[2])
+                src = None
+                if vals:
+                    # if another ObservableList of the object currently holds exactly these items, assign THAT list
+                    # object (`a.archive = a.inbox`): the assignment must copy, not adopt / alias it
+                    for j in range(8):
+                        if str(j) != w[1]:
+                            other = getattr(inst, f"o{j}", None)
+                            if other is not None and hasattr(other, "append") and list(other) == vals:
+                                src = other
+                                break
+                setattr(inst, f"o{w[1]}", src if src is not None else vals)
             else:
                 name = f"o{w[1]}"
                 if k == "liadd":
